@@ -1878,7 +1878,8 @@ const RULE: &str = "run = one real Chain shared by 3-6 submitter threads and 3-7
 	not stored, HeadMove and HeaderHeadMove logs must each be a chain (prev == previous new, strictly more work, known accepted stored \
 	block, last == final head), final head == unique max-work block, snapshot == reference ledger state, == sequentially fed reference \
 	node, validate(false) Ok. Watchdog: no progress of any thread for 60 s -> gdb all-thread backtraces, the run is re-executed once, \
-	only a reproduced hang is a violation. Every fourth plan is executed twice with different schedule seeds. One evaluation = one run; \
+	only a reproduced hang is a violation. Per world two delivery plans are run, every fourth world runs plan 0 a second time under another schedule seed. The sequential \
+	reference node is fed once per world before the runs; a world one of whose blocks it refuses (generator artefact) is discarded and counted. One evaluation = one run; \
 	distinct = distinct interleaving (sequence of (thread, HeadMove|HeaderHeadMove, block) + order and thread of block_accepted \
 	callbacks); non-trivial = at least two different threads moved the head.";
 
@@ -1900,8 +1901,8 @@ fn main() {
 
 	if let Some(kind) = san {
 		// sanitizer build: everything in this process so that reports reach the driver
-		let n_short = 6u64;
-		let n_long = 2u64;
+		let n_short = 10u64;
+		let n_long = 3u64;
 		let a = PhaseArgs { long: false, n: n_short, dir: dir.clone(), worlds: 1, only: None, deadline_s: 1500.0, small_worlds: true };
 		phase_with_monitor(&run, &a, 0, 1, true, false);
 		match build_long_world_files(mix(run.seed, 0x1096, 0), &dir, 0) {
